@@ -520,6 +520,60 @@ theorem rel_resolves (version : Name) (m : Module) (sc : Scope) (self ctx : Addr
           simp [Addr.full, hpkg, hsp, ← hr]
     · simp [resolveRef, hq]
 
+/-- **References into another file of the package or into a dependency package resolve to the referenced
+    type**: the template prints `<import name>.<Parent…>.<Name>`, the import name being the module, its alias
+    or `<module>_pb2` — provided that name is bound by an import of the module and is not shadowed inside the
+    class body (the generator's collision set covers every message, enum and field name of the file; the
+    excluded point "a field called `<module>_pb2`" is run on the real code by the check). -/
+theorem rel_cross_module_resolves (version : Name) (m : Module) (sc : Scope) (self ctx : Addr)
+    (hdiff : ¬ (self.package = ctx.package ∧ self.module = ctx.module))
+    (hmod : self.module ≠ [])
+    (iname : Name) (hi : importName version self = some iname)
+    (himp : lookupImport sc.imports iname = some self.package)
+    (hloc : sc.ctx ++ [iname] ∉ m.types) (hfld : iname ∉ sc.localsBefore) :
+    (rel version self ctx).map (resolveRef m sc) = some (.type self.full) := by
+  unfold rel
+  simp only [hdiff, if_false]
+  unfold importName at hi
+  cases hs : strSegs version self with
+  | none => simp [hs] at hi
+  | some segs =>
+    simp only [hs, Option.bind_some] at hi
+    have hshape : ∃ m0, segs = m0 :: (self.parent ++ [self.name]) := by
+      unfold strSegs at hs
+      simp only [hmod, if_false] at hs
+      cases ha : moduleAlias version self with
+      | none => simp [ha] at hs
+      | some al => simp [ha] at hs; exact ⟨_, hs.symm⟩
+    obtain ⟨m0, rfl⟩ := hshape
+    simp only [List.head?_cons, Option.some.injEq] at hi
+    subst hi
+    simp [resolveRef, pyEval, hloc, hfld, himp, Addr.full]
+
+/-- the resolution hypothesis of `decl_roundtrip`, discharged by the two resolution theorems above -/
+theorem resolves_of_rel (version : Name) (m : Module) (sc : Scope) (ctx : Addr) (tgt : Option Target)
+    (h : ∀ x, tgt = some x → (rel version x.addr ctx).map (resolveRef m sc) = some (.type x.addr.full)) :
+    Resolves version ctx (fun r => (resolveRef m sc r).toOption) tgt := by
+  intro x hx
+  have hh := h x hx
+  cases hr : rel version x.addr ctx with
+  | none => simp [hr] at hh
+  | some r =>
+    simp only [hr, Option.map_some, Option.some.injEq] at hh
+    exact ⟨r, rfl, by simp [hh, Resolved.toOption]⟩
+
+/-- **End to end for one non-map field**: under Python's scoping and proto-plus's late resolution the
+    declaration the template prints is read back as the input field, whenever the reference resolves
+    (`rel_resolves` / `rel_cross_module_resolves`). -/
+theorem decl_roundtrip_python (version : Name) (m : Module) (sc : Scope) (ctx : Addr) (parentFull : List Name)
+    (f : FieldView) (wf : WF f) (hm : f.isMap = false)
+    (h : ∀ x, f.target = some x → (rel version x.addr ctx).map (resolveRef m sc) = some (.type x.addr.full)) :
+    ∃ d, emitDecl version ctx f = some d ∧
+      reconstruct (fun r => (resolveRef m sc r).toOption) parentFull d = some (expected parentFull f) := by
+  apply decl_roundtrip version ctx _ parentFull f wf
+  simp only [hm, Bool.false_eq_true, if_false]
+  exact resolves_of_rel version m sc ctx f.target h
+
 /-- §9-F9 at the smallest input: `message A { message B {} }  message X { message A { A.B f = 1; } }`.
     The template prints the bare name `B` inside the body of `X.A`, where no `B` is bound: importing
     the types module raises `NameError`. -/
@@ -576,6 +630,19 @@ example :
     let ctx : Addr := ⟨pkg, "lib".toList, ["A".toList], "B".toList, true, false⟩
     ¬ ShadowedShape ctx.parent ctx.name tgt.parent ∧
     (rel [] tgt ctx).map (resolveRef m ⟨["A".toList, "B".toList], [], []⟩) = some (.type tgt.full) := by
+  decide
+
+/-- hypotheses of `rel_cross_module_resolves` hold for a reference to google.protobuf.Timestamp and for a
+    reference to a colliding module of the package (alias `al_shared`) -/
+example :
+    let m : Module := ⟨["acme".toList, "lib".toList, "v1".toList], [["A".toList]], ["A".toList]⟩
+    let ts : Addr := ⟨["google".toList, "protobuf".toList], "timestamp".toList, [], "Timestamp".toList, false, false⟩
+    let it : Addr := ⟨["acme".toList, "lib".toList, "v1".toList], "shared".toList, [], "Item".toList, true, true⟩
+    let ctx : Addr := ⟨["acme".toList, "lib".toList, "v1".toList], "alpha".toList, [], "A".toList, true, false⟩
+    let sc : Scope := ⟨["A".toList], ["shared".toList], [("timestamp_pb2".toList, ts.package), ("al_shared".toList, it.package)]⟩
+    importName "v1".toList ts = some "timestamp_pb2".toList ∧ importName "v1".toList it = some "al_shared".toList ∧
+    (rel "v1".toList ts ctx).map (resolveRef m sc) = some (.type ts.full) ∧
+    (rel "v1".toList it ctx).map (resolveRef m sc) = some (.type it.full) := by
   decide
 
 /-- `enum_values_preserved` hypotheses hold for an unsorted enum with an alias -/
